@@ -26,6 +26,7 @@ def run(ctx):
         "hyperbolic_rep", "automaton", "standard_subgroup"])
     ctx.do(SI.rule_pa1)
     ctx.do(SI.rule_inf1)
+    ctx.do(SI.rule_cm1)
     ctx.do(u1, ENTRIES, min_functions=15)
     ctx.r.assume("involutions, braid relations, form preservation and "
                  "triangle angles are numerical and not decided")
